@@ -174,12 +174,22 @@ func (p *bpeer) waitRecv(d time.Duration, pred func(refPacket) bool, n int) bool
 
 // sync sends a QoS1 marker and waits for its PUBACK: serve is strictly sequential, so
 // every packet sent before the marker has been fully handled when this returns true.
-func (p *bpeer) sync(d time.Duration) bool {
+func (p *bpeer) sync(d time.Duration) bool { return p.syncBehind(d, nil) }
+
+// syncBehind sends the packets of prefix and the marker in ONE buffer (one TCP segment, as a broker batching its
+// output does), then waits for the marker's acknowledgement.
+func (p *bpeer) syncBehind(d time.Duration, prefix []refPacket) bool {
 	p.mu.Lock()
 	p.syncN++
 	id := vSyncIDBase + p.syncN
 	p.mu.Unlock()
-	if !p.conn.peerSend(refEncode(refPacket{Type: rtPublish, QoS: 1, ID: id, Topic: vSyncTopic})) {
+	var buf []byte
+	for i := range prefix {
+		p.log.add(p.conn.id, "B", &prefix[i], "glued to the next packet")
+		buf = append(buf, refEncode(prefix[i])...)
+	}
+	buf = append(buf, refEncode(refPacket{Type: rtPublish, QoS: 1, ID: id, Topic: vSyncTopic})...)
+	if !p.conn.peerSend(buf) {
 		return false // the link is already gone
 	}
 	ok := false
